@@ -52,13 +52,14 @@ CHECKS = {
         note=TB + 'Hook: internal/eval/verif_hooks.go + x/exp/eval/verif_hooks.go (build tag verif, add-only).',
         technique='Coq structural-induction proof parametric in a table regenerated from the Go source + differential correspondence incl. Go-vs-Go oracle'),
     'C05': dict(
-        level='proof', design='§6 C05',
-        text='Theorems (Properties/C05.v, *_partial*): the model of doBatch (binding order as a parameter, doPartial per prefix, fixIgnores, cloneSub, '
+        level='proof', design='§0.2, §6 C05',
+        text='Theorems (Properties/C05.v): the model of doBatch (binding order as a parameter, doPartial per prefix, fixIgnores, cloneSub, '
              'callback budget / cancellation) delivers, in order and exactly once, for every element of the Cartesian product, the result of the ordinary '
              'authorizer on the ORIGINAL policies under the substituted request (request, values, decision, reason ids); a failing callback / cancelled '
-             'context stops after exactly k+1 / k callbacks with that status. Restriction of the proof (not of the checks): unknowns are whole request '
-             'parts or record fields at any depth, not members of sets. Correspondence: batch.Authorize = model = brute-force cedar.Authorize inside the harness.',
-        note=TB + 'Built on the C06 soundness theorem. Unknowns nested in sets are covered by the correspondence and the brute-force oracle only.',
+             'context stops after exactly k+1 / k callbacks with that status. Unknowns may sit anywhere in a request part, including below members of sets '
+             '(Proofs/BatchSets.v removed the earlier restriction). Correspondence: batch.Authorize = model = brute-force cedar.Authorize inside the harness.',
+        note=TB + 'Built on the C06 soundness theorem. A model set is its member list in first-insertion order; Go map layout is not part of a value, so '
+             'equality of the request component means equality of set values.',
         technique='Coq proof (batch = brute force, by induction on the variable list over the partial-evaluation soundness theorem) + differential run against Go and brute force'),
     'C06': dict(
         level='proof', design='§6 C06',
@@ -148,12 +149,17 @@ CHECKS = {
         note=TB + 'Error MESSAGE text is not modelled (only which sub-expression fails): F23 is a message-level known finding. Found and repaired F18, F19.',
         technique='Coq permutation-invariance proofs + repetition oracle under Go map randomisation'),
     'C15': dict(
-        level='exploration', design='§6 C15',
-        text='No Coq theorem yet (type-checker fragment model under construction). Direct oracle: random schemas x policies typed against them + '
-             'targeted historical shapes, strict and permissive; every accepted policy is evaluated on generated stores/requests that the validator itself '
-             'declares conforming and must not fail with a type / arity / unknown-function / missing attribute or tag error.',
-        note='Trusted: the schema/policy/data generators and the harness. Found and repaired F20, F24, F25; F29 is a known finding.',
-        technique='soundness oracle over generated schemas, policies and conforming data (Coq soundness proof of a fragment pending)'),
+        level='proof', design='§0.2, §6 C15',
+        text='Model of the expression type checker (Impl/TypeCheck.v: types, least upper bounds, capabilities, extension signatures, the `in` / `has` / tag '
+             'rules) tied to the code by the `typeof` correspondence on condition bodies and their sub-expressions. Theorems (Properties/C15.v): STRICT mode - '
+             'if the checker accepts an expression with type t then in every conforming environment evaluation yields a value of type t or fails only with '
+             'entity-missing / overflow / extension errors, for the whole expression language (C15_strict_sound); PERMISSIVE mode - refuted with a witness '
+             '(C15_permissive_refuted = known finding F29, pinned by the corpus). Policy-level glue (request-environment enumeration, scopes, several '
+             'conditions) and the conformance checkers are decided by the direct oracle: random schemas x typed and hazard policies x conforming data.',
+        note=TB + 'Hypotheses of the strict theorem: record types of the schema have distinct keys; attribute names shorter than 10^39 bytes (model artifact); '
+             'the parents of action entities are action entities as the schema declares (see DESIGN 0.3, F43). The proof found F41, F42, F43 (fixed). '
+             'F29 is a known finding.',
+        technique='Coq proof (type soundness by induction on expressions, capabilities as an invariant) + typeof correspondence + soundness oracle over generated schemas, policies and conforming data'),
     'C16': dict(
         level='proof', design='§0.2, §6 C16',
         text='Model of resolved.Resolve (registration, RFC 70 shadowing check, Kahn cycle detection, type-reference resolution with the namespace rules, '
